@@ -101,15 +101,19 @@ def run_property(prop, tier, seed, workers=None, budget=None):
         if kf is not None:
             run.known_hits[kf["id"]] += 1
     if not outcomes and not run.harness:
-        mism = phase_xproc(run, B["xproc"])
+        mism = phase_xproc(run, B["xproc"], extra_programs=P.large_programs_c17() if prop == "C17" else ())
         for i, rs, d in mism[:2]:
             from .check import replay_dir
             path = os.path.join(replay_dir(), "%s-xproc-%s.json" % (prop, rs))
             os.makedirs(os.path.dirname(path), exist_ok=True)
-            json.dump({"property": prop, "xproc": True, "run_seed": rs, "tier": tier, "verif_seed": seed,
+            prog = None
+            if isinstance(rs, str) and rs.startswith("large:"):
+                prog = [q["program"] for q in P.large_programs_c17() if "large:" + q["name"] == rs][0]
+            json.dump({"property": prop, "xproc": True, "run_seed": rs, "tier": tier, "verif_seed": seed, "program": prog,
                        "digests": {k: list(v) for k, v in d.items()},
                        "violation": {"property": prop, "invariant": "I-KEYED-XPROC",
-                                     "detail": {"what": "same program, different PYTHONHASHSEED: different results"}}},
+                                     "detail": {"what": "same history, different process environment (PYTHONHASHSEED 1 vs 77, "
+                                                        "simulated usable CPUs 1 vs 6): different results"}}},
                       open(path, "w"), indent=1)
             outcomes.append(("violation" if prop == "C17" else "harness", path if prop == "C17" else
                              "results depend on PYTHONHASHSEED: " + path, {"invariant": "I-KEYED-XPROC"}))
